@@ -323,6 +323,22 @@ pub fn run(args: &Args) -> Report {
             toks.remove(tag_idx + 1 + k);
             check(&mut rep, &toks, format!("dev-missing-param:{ty}#{k}"), false, None, false);
         }
+        // --- a token of the wrong type in place of each parameter: UnexpectedTokenType (an identifier in place of a string
+        //     is the one case that is tolerated with a logged diagnostic in non-strict mode; it is an error in strict mode)
+        for k in 0..nparams {
+            if from_seq[k] {
+                continue;
+            }
+            let tx = base[tag_idx + 1 + k].text.clone();
+            let is_str = tx.starts_with('"');
+            let is_num = tx.parse::<f64>().is_ok() || tx.starts_with("0x");
+            let wrong: [&str; 2] = if is_str { ["wrongtype", "5"] } else if is_num { ["wrongtype", "\"s\""] } else { ["\"s\"", "5"] };
+            for w in wrong {
+                let mut toks = base.clone();
+                toks[tag_idx + 1 + k].text = w.to_string();
+                check(&mut rep, &toks, format!("dev-wrong-type:{ty}#{k}"), false, Some("UnexpectedTokenType"), false);
+            }
+        }
         // --- unknown enum value in each enum parameter
         for k in 0..nparams {
             let tx = &base[tag_idx + 1 + k].text;
